@@ -112,7 +112,8 @@ def faultLine : P String := do
   -- deco=1: models behind a forwarding decorator (`decorate_transparent`: same answers);
   -- move=1 / massign=1: the correction is handed over first (`PFCorrObj.moveConstruct` / `moveAssign`)
   let handed := rest.contains "move=1" || rest.contains "massign=1"
-  let rest := rest.filter (fun t => !["alias=1", "alias=0", "deco=1", "move=1", "massign=1", "degen=1"].contains t)
+  -- pre=<mode>: the output container holds a partial copy of the predicted belief (the theorems hold for every `cin`)
+  let rest := rest.filter (fun t => !["alias=1", "alias=0", "deco=1", "move=1", "massign=1", "degen=1"].contains t && !t.startsWith "pre=")
   let hand (lk : Script → FR (Option Unit)) (g : Script → Sym → Sym → FR Sym) : PFCorrObj Sym Unit :=
     let src : PFCorrObj Sym Unit := { lik := lk, gauss := g, models := s, validLikelihood := false, skip := false }
     let tgt : PFCorrObj Sym Unit := { lik := fun s => ⟨some (), s, []⟩, gauss := fun s p _ => ⟨p, s, []⟩, models := {}, validLikelihood := true, skip := true }
